@@ -13,5 +13,6 @@ func moreGens() []struct {
 		{"Conv.v", genConv},           // C02
 		{"EdiConsts.v", genEdiConsts}, // C07
 		{"Safety.v", genSafety},       // C03
+		{"DeclHash.v", genDeclHash},   // C13, C15
 	}
 }
